@@ -902,3 +902,198 @@ def c19(tier):
 
 
 CHECKS["C19"] = c19
+
+
+# ----------------------------------------------------------------------- C16
+
+def c16(tier):
+    t0 = time.time()
+    wd = core.workdir("C16")
+    q = tier == "quick"
+    mc = mc_run("MC_Calls", "MC_Calls", "C16-mc")
+    # the model must be able to see the failure modes the property names
+    for bad in ("MC_Calls_shared", "MC_Calls_lenfirst"):
+        r = core.tlc(os.path.join(core.SPEC, "mc", "MC_Calls.tla"), os.path.join(core.SPEC, "mc", bad + ".cfg"), "C16-" + bad,
+                     coverage=False, cont=False, timeout=600)
+        if r.invariant_violations == 0:
+            raise core.ToolError("vacuity: %s should violate an invariant of Calls.tla but does not" % bad)
+    inputs = []
+    for F in (gen.F64, gen.F32):
+        rng = gen.rng_for("C16" + F.name)
+        inputs += gen.g_plain(F, rng, 30 if q else 300)
+        inputs += gen.g_midpoints(F, rng, tier, nexp=10 if q else 100, nrand=1)
+        inputs += gen.g_runs(F, rng, 30 if q else 400)
+        inputs += gen.g_seams(F, rng)[:: 12 if q else 3]
+        inputs += [r for r in gen.g_extremes(F, rng, big=3000) if r["tag"] != "G5:zero"][:: 4 if q else 1]
+    inputs = gen.normalise(gen.dedup(inputs))
+    cfgs = ["std", "std+compact"] if q else ["std", "std+compact", "std+alloc", "none"]
+    nthreads = 8
+    violations = []
+    tstates = ttrans = nevents = 0
+    shapes = collections.Counter()
+    for cfg in cfgs:
+        bindir = core.build_harness(cfg, bins=["run_parse"])
+        inp = os.path.join(wd, "in.ndjson")
+        core.write_ndjson(inp, [{k: v for k, v in r.items() if k != "tag"} for r in inputs])
+        base = os.path.join(wd, "base-%s.ndjson" % cfg.replace("+", "_"))
+        core.run([os.path.join(bindir, "run_parse"), "--in", inp, "--out", base], timeout=900)
+        baseline = [{"id": o["id"], "kind": o["out"]["kind"], "bits": o["out"]["bits"]} for o in core.read_ndjson(base)]
+        threads = []
+        # sequential thread "0": every shape on every input, after stack poisoning
+        seq_events = []
+        for shape in range(7):
+            si = os.path.join(wd, "in-shape%d.ndjson" % shape)
+            core.write_ndjson(si, [dict({k: v for k, v in r.items() if k != "tag"}, shape=shape) for r in inputs])
+            so = os.path.join(wd, "out-shape%d-%s.ndjson" % (shape, cfg.replace("+", "_")))
+            core.run([os.path.join(bindir, "run_parse"), "--in", si, "--out", so, "--poison"], timeout=900)
+            for o in core.read_ndjson(so):
+                seq_events.append({"id": o["id"], "seq": len(seq_events), "shape": shape, "kind": o["out"]["kind"], "bits": o["out"]["bits"]})
+                shapes[shape] += 1
+        threads.append({"thread": 100, "events": seq_events})
+        # concurrent threads
+        to = os.path.join(wd, "out-threads-%s.ndjson" % cfg.replace("+", "_"))
+        core.run([os.path.join(bindir, "run_parse"), "--in", inp, "--out", to, "--threads", str(nthreads), "--poison"], timeout=900)
+        per = collections.defaultdict(list)
+        for o in core.read_ndjson(to):
+            per[o["thread"]].append(o)
+            shapes[o["shape"]] += 1
+        for t, evs in sorted(per.items()):
+            evs.sort(key=lambda e: e["seq"])
+            threads.append({"thread": t, "events": [{"id": e["id"], "seq": e["seq"], "shape": e["shape"], "kind": e["kind"], "bits": e["bits"]} for e in evs]})
+        ep = os.path.join(wd, "events-%s.ndjson" % cfg.replace("+", "_"))
+        bp = os.path.join(wd, "baseline-%s.ndjson" % cfg.replace("+", "_"))
+        core.write_ndjson(ep, threads)
+        core.write_ndjson(bp, baseline)
+        res = core.tlc(os.path.join(core.SPEC, "cf", "CF_Calls.tla"), os.path.join(core.SPEC, "cf", "CF_Calls.cfg"), "C16-cf-" + cfg.replace("+", "_"),
+                       env={"VERIF_RECORDS": ep, "VERIF_BASELINE": bp}, coverage=False, timeout=3000)
+        verd = [p for p in res.prints if isinstance(p, dict) and "verdict" in p]
+        if core.tlc_fatal(res) or len(verd) != len(threads):
+            raise core.ToolError("CF_Calls decided %d of %d threads: %s" % (len(verd), len(threads), core.tlc_fatal(res)[:2]))
+        for v in verd:
+            if v["verdict"] != "ok":
+                r = inputs[v["input"] - 1]
+                violations.append(core.write_replay("C16", {"property": "C16", "config": cfg, "input": parsecheck.describe(r), "event": v}))
+        tstates += res.distinct
+        ttrans += res.generated
+        nevents += sum(len(t["events"]) for t in threads)
+    cov = {
+        "states": mc.distinct + tstates, "transitions": mc.generated + ttrans,
+        "traces_validated_against_impl": len(cfgs) * (nthreads + 1), "evaluations": nevents,
+        "distinct_nontrivial": len(inputs) * 7,
+        "rule": "MC_Calls: 3 threads x 2 inputs x every initial stack content x every interleaving, up to 2 calls per thread; the two "
+                "failure designs (shared scratch buffer, length set before the cells are written) must each violate an invariant. "
+                "CF: every input x 7 iterator shapes (slice, chain, filter, skip/step_by, VecDeque ring, hand-written iterator with "
+                "size_hint (0,None), rev.rev) after stack-poisoning calls, plus 8 concurrent threads each walking all inputs in its own "
+                "order with rotating shapes; the CF_Calls trace specification enables Return only for baseline[input]",
+        "samples": [parsecheck.describe(r) for r in inputs[:: max(1, len(inputs) // 5)]][:6],
+        "events_per_shape": dict(shapes), "inputs": len(inputs), "threads": nthreads, "configs": cfgs,
+        "mc_states": mc.distinct, "exhaustive": False,
+    }
+    core.write_evidence("C16", tier, "model_checking", cov, time.time() - t0, len(violations),
+                        assumptions=["baseline = sequential call with slice iterators in the same build; no timing dependence: verdicts compare bits only"])
+    core.finish("C16", violations, [])
+
+
+CHECKS["C16"] = c16
+
+
+# ----------------------------------------------------------------------- C08
+
+def raw_to_values(S):
+    """raw byte segments -> element values (byte - 48) mod 256 for the specification"""
+    return [{"d": [(b - 48) % 256 for b in s["d"]], "n": s["n"]} for s in S]
+
+
+def c08(tier):
+    t0 = time.time()
+    wd = core.workdir("C08")
+    q = tier == "quick"
+    mc = mc_run("MC_Garbage", "MC_Garbage", "C08-mc", timeout=1800)
+    inputs = gen.g_garbage(gen.rng_for("C08"), tier)
+    plan = [("release", None, ["std", "std+compact", "std+alloc"] if q else core.ALL_CONFIGS),
+            ("checked", None, ["std"] if q else ["std", "std+compact", "std+alloc", "compact"]),
+            ("release", "asan", ["std", "std+alloc"] if q else ["std", "std+alloc", "std+compact", "compact+alloc"])]
+    violations = []
+    merged = None
+    instruments = {}
+    hist = {}
+    for profile, san, cfgs in plan:
+        env = {"ASAN_OPTIONS": "detect_leaks=0:abort_on_error=0:exitcode=99"} if san else None
+        label = profile + ("+" + san if san else "")
+        try:
+            outs = parsecheck.run_impl(wd, inputs, cfgs, profile=profile, sanitizer=san, env=env, markers=True, name="garbage")
+        except parsecheck.ProcessDeath as d:
+            rec = next((r for r in inputs if r["id"] == d.record), None)
+            violations.append(core.write_replay("C08", {"property": "C08", "what": "process died (abort / signal / sanitizer report)",
+                                                        "build": label, "config": d.cfg, "exit_code": d.rc, "input": rec,
+                                                        "output_tail": d.output}))
+            continue
+        instruments[label] = {c: collections.Counter(o["out"]["kind"] for o in outs[c]) for c in cfgs}
+        for k, v in parsecheck.path_histogram(outs).items():
+            hist[k + "@" + label] = v
+        recs = parsecheck.merge(inputs, outs, "@" + label)
+        if merged is None:
+            merged = recs
+        else:
+            for a, b in zip(merged, recs):
+                a["outs"].extend(b["outs"])
+    known = []
+    cov_extra = {}
+    res = None
+    if merged is not None:
+        for m in merged:
+            m["int"] = raw_to_values(m["int"])
+            m["frac"] = raw_to_values(m["frac"])
+        verdicts, trails, res = parsecheck.adjudicate(wd, merged, {"GARBAGE"}, "C08")
+        for rid, v in verdicts.items():
+            if v["verdict"] == "impl_violates":
+                violations.append(core.write_replay("C08", {"property": "C08", "record": merged[rid - 1], "verdict": v}))
+            elif v["verdict"] != "ok":
+                raise core.ToolError("C08 record not adjudicated: %s" % v)
+        cov_extra = {"spec_trails": dict(trails), "model": {k: (v[:20] if isinstance(v, list) else v) for k, v in res.model.items()}}
+    # Miri (Tree Borrows) on a reduced batch: sees intra-object overflow and uninitialised reads, which ASan cannot
+    miri = None
+    if not q:
+        miri = run_miri(wd, inputs[:: max(1, len(inputs) // 300)])
+        if miri.get("error"):
+            violations.append(core.write_replay("C08", {"property": "C08", "what": "Miri reported undefined behaviour", "output_tail": miri["error"]}))
+    tags = collections.Counter(r["tag"] for r in inputs)
+    cov = {
+        "states": mc.distinct + (res.distinct if res else 0), "transitions": mc.generated + (res.generated if res else 0),
+        "traces_validated_against_impl": sum(sum(sum(c.values()) for c in i.values()) for i in instruments.values()),
+        "evaluations": len(inputs), "distinct_nontrivial": len({(r["fmt"], json.dumps(r["int"]), json.dumps(r["frac"]), r["exp"]) for r in inputs}),
+        "rule": "arbitrary bytes (every byte value; classes '0' '9' ':' 0xFF NUL '/' in run-structured strings with run lengths "
+                "{1,2,19,20,21,770,2000}; single bad bytes at the truncation positions; leading/trailing zeros; random bytes up to 10^4) x "
+                "every exponent class, run under catch_unwind in a release build, a build with debug assertions + overflow checks (core's "
+                "unsafe-precondition checks included) and an AddressSanitizer build, with begin/end markers so that a process death is "
+                "attributed; TLC validates outcome in {value, clean panic} and runs the parse_number model on the garbage; MC_Garbage "
+                "checks the model's unchecked-index obligations",
+        "samples": [{"fmt": r["fmt"], "int": core.segs_str(raw_to_values(r["int"])), "frac": core.segs_str(raw_to_values(r["frac"])),
+                     "exp": r["exp"], "tag": r["tag"]} for r in inputs[:: max(1, len(inputs) // 6)]][:8],
+        "families": dict(tags), "outcomes_per_build": {k: {c: dict(v) for c, v in i.items()} for k, i in instruments.items()},
+        "impl_paths": hist, "miri": miri, "mc_states": mc.distinct, "exhaustive": False,
+    }
+    cov.update(cov_extra)
+    core.write_evidence("C08", tier, "model_checking", cov, time.time() - t0, len(violations),
+                        assumptions=["detection in the binary is by the instruments (ASan, debug / UB-precondition checks, Miri with Tree Borrows in "
+                                     "thorough); the specification fixes the permitted outcomes and the bounds obligations"])
+    core.finish("C08", violations, known)
+
+
+def run_miri(wd, inputs):
+    inp = os.path.join(wd, "miri-in.ndjson")
+    outp = os.path.join(wd, "miri-out.ndjson")
+    small = [r for r in inputs if core.segs_len(r["int"]) + core.segs_len(r["frac"]) <= 2100][:300]
+    core.write_ndjson(inp, [{k: v for k, v in r.items() if k != "tag"} for r in small])
+    env = {"MIRIFLAGS": "-Zmiri-tree-borrows -Zmiri-disable-isolation", "CARGO_TARGET_DIR": os.path.join(core.HARNESS, "target", "miri")}
+    p, wall = core.run(["cargo", "+nightly", "miri", "run", "--features", "std,verif", "--bin", "run_parse", "--", "--in", inp, "--out", outp],
+                       cwd=core.HARNESS, env=env, timeout=3000, check=False)
+    if p.returncode != 0:
+        txt = p.stdout or ""
+        if "Undefined Behavior" in txt or "error: unsupported operation" in txt:
+            return {"records": len(small), "error": txt[-3000:]}
+        raise core.ToolError("miri run failed: %s" % txt[-1500:])
+    return {"records": len(core.read_ndjson(outp)), "error": None, "wall_s": round(wall, 1)}
+
+
+CHECKS["C08"] = c08
